@@ -37,10 +37,12 @@ BASE_VALUES = {
     "Tag": ["", "t", 1, True, ["t", 1]],
     "Color": ["RED", "BLUE", "red", "PURPLE", "", 0, True, {"RED": 1}, False, "True", 1.0],
     "P": [{}, {"a": 1}, {"a": None}, {"a": "x"}, {"zz": 1}, {"a": 1, "zz": 2}, {"b": None}, {"b": "y"}, {"b": 3}, {"c": [1, 2]},
-          {"c": 1}, {"c": [None]}, {"c": None}, {"c": []}, {"c": ["x"]}, {"a": 1, "b": "y", "c": [3]}, 5, "s", True],
+          {"c": 1}, {"c": [None]}, {"c": None}, {"c": []}, {"c": ["x"]}, {"a": 1, "b": "y", "c": [3]}, 5, "s", True,
+          {"c": [3], "b": "y", "a": 1}, {"b": "y", "a": 1}],
     "Q": [{"r": 1}, {}, {"r": None}, {"r": "x"}, {"r": 1, "p": {"a": "bad"}}, {"r": 1, "p": {"b": "y"}}, {"r": 1, "p": None},
           {"r": 1, "p": {}}, {"r": 1, "p": {"c": 2}}, {"p": {}}, {"r": 2 ** 31}, {"r": 1, "q": 1}, 1,
-          {"r": 1, "d": 2}, {"r": 1, "d": None}, {"r": 1, "l": "single"}, {"r": 1, "l": None}, {"r": 1, "l": [None]}, {"r": 1, "d": 2, "l": []}],
+          {"r": 1, "d": 2}, {"r": 1, "d": None}, {"r": 1, "l": "single"}, {"r": 1, "l": None}, {"r": 1, "l": [None]}, {"r": 1, "d": 2, "l": []},
+          {"l": ["x"], "d": 2, "p": {"c": [1], "a": 2}, "r": 1}, {"p": {}, "r": 1}],
     "R": [{}, {"r": {}}, {"r": {"r": {"x": 2}}}, {"r": {"x": "bad"}}, {"x": None}, {"x": 5}, {"r": None}, {"r": {"r": {"r": {"zz": 1}}}},
           {"r": 1}, "R"],
 }
